@@ -8,6 +8,7 @@ import JaxVerif.Spec.Calls
 import JaxVerif.Generated.Skeleton
 import JaxVerif.Lemmas.Wrapper
 import JaxVerif.Lemmas.Sig
+import JaxVerif.Source.Wrappers
 
 namespace JV
 
@@ -76,5 +77,17 @@ example : parsePieces (renderSig [⟨"a", .posOnly, false⟩, ⟨"b", .posOrKw, 
 example : renderSig [⟨"b", .posOrKw, false⟩] [⟨"ret0", .kwOnly, false⟩] = [.param ⟨"b", .posOrKw, false⟩, .star, .param ⟨"ret0", .kwOnly, false⟩] := by decide
 example : (generatedNames "T0" ["T0", "default0", "ret0", "T1"] true).1 = ["T0", "default0", "ret0", "T1", "ret1"] := by decide
 example : gensym ["T0", "T1", "x"] "T" = "T2" := by decide
+
+/-- **the wrapper as written today is the model's**: `wrapped_fn` and `wrapped_fn_impl`, translated from the current
+    source on this run, compute for every program term exactly what `runProg` computes for a new-style call — so
+    `C07_once`, `C07_bind_error` and `C07_result_passthrough` are statements about the code the source contains
+    (the interpreter crashes if the result of the body is dropped, if `fn` is called before it is bound, or if a
+    name is read before it is assigned). -/
+theorem C07_source_wrapper (sk : Skel) (ps : List Param) (ret : Option (LType × Obj)) (bindOk noTc rs nw : Bool)
+    (body : List Prog) (e : Exit) (st : TState) :
+    runWrapper ⟨sk, ps, ret, bindOk, noTc, runProgs sk goodWrap body, e, rs, nw, none, .plain, Generated.newImplCode⟩
+        Generated.newWrapperCode st
+      = some (runProg sk goodWrap (.call .newStyle ps ret bindOk noTc body e) st) :=
+  source_runProg_call ..
 
 end JV
